@@ -637,7 +637,7 @@ impl Sim {
         self.flush_server_emits();
         set_dt(&mut self.server, dt_ms);
         let running = self.server.world().resource::<RepliconServer>().is_running();
-        if tick {
+        if tick && !self.cfg.every_frame {
             self.server.world_mut().resource_mut::<ServerTick>().increment();
         }
         let runs_before = bevy_replicon::server::verif::replication_runs();
